@@ -1,4 +1,5 @@
 import AsModel.Expand
+import AsModel.Temporaries
 /-
 The exact token sequence of the expansion (what `quote!` / `quote_spanned!` emit
 for each template of expand.rs and expand/nodes.rs), with the span every token is
@@ -89,11 +90,18 @@ def Code.toks (value : Toks) : Code → Toks
   | .seq cs' => cs'.toks value
   | .simple sp v e push =>
     tq sp "if ! matches ! (" ++ v.toks value ++ tq sp "," ++ e.toks ++ tq sp ") {" ++ push.toks value ++ tq sp "}"
-  | .string sp v lit _ push =>
-    -- the value is a `match` scrutinee: all its temporaries live for the whole block
-    tq sp "{ match &" ++ v.toks value ++
-      tq sp "{ __assert_struct_ref = > { let __assert_struct_tmp = __assert_struct_ref ; let actual = ( * __assert_struct_tmp ) . as_ref ( ) ; if ! matches ! ( actual ," ++
-      [lit] ++ tq sp ") {" ++ push.toks value ++ tq sp "} } } }"
+  | .string sp v lit s push =>
+    match (Code.string sp v lit s push).hold with
+    | .statement =>
+      -- the value is a `match` scrutinee: all its temporaries live for the whole block
+      tq sp "{ match &" ++ v.toks value ++
+        tq sp "{ __assert_struct_ref = > { let __assert_struct_tmp = __assert_struct_ref ; let actual = ( * __assert_struct_tmp ) . as_ref ( ) ; if ! matches ! ( actual ," ++
+        [lit] ++ tq sp ") {" ++ push.toks value ++ tq sp "} } } }"
+    | .letRef =>
+      -- (the template before f5121f2)
+      tq sp "{ let __assert_struct_tmp = &" ++ v.toks value ++
+        tq sp "; let actual = ( * __assert_struct_tmp ) . as_ref ( ) ; if ! matches ! ( actual ," ++
+        [lit] ++ tq sp ") {" ++ push.toks value ++ tq sp "} }"
   | .cmp sp v op e push =>
     tq sp "# [ allow ( clippy : : nonminimal_bool ) ] if ! ( (" ++ v.toks value ++
       tq sp s!") . {CmpOp.method op} ( & (" ++ e.toks ++ tq sp ") ) ) {" ++ push.toks value ++ tq sp "}"
@@ -140,14 +148,17 @@ def Code.toks (value : Toks) : Code → Toks
       tq sp ") { Some ( __map_value ) = > {" ++ body.toks value ++ tq sp "} None = > {" ++
       push.toks value ++ tq sp "} }"
   | .set v preds rest node =>
-    tq cs "match & (" ++ v.toks value ++
-      tq cs ") { __set_src = > { let __set_coll : : : std : : vec : : Vec < _ > = __set_src . into_iter ( ) . collect ( ) ;" ++
+    (match (Code.set v preds rest node).hold with
+     | .statement => tq cs "match & (" ++ v.toks value ++ tq cs ") { __set_src = > {"
+     | .letRef => tq cs "{ let __set_src = & (" ++ v.toks value ++ tq cs ") ;") ++
+      tq cs "let __set_coll : : : std : : vec : : Vec < _ > = __set_src . into_iter ( ) . collect ( ) ;" ++
       preds.predToks value 0 ++
       tq cs "let __set_preds : & [ & dyn : : std : : ops : : Fn ( usize ) - > bool ] = & [" ++
       sepBy (tq cs ",") ((List.range preds.toList.length).map fun i => tq cs s!"& __set_pred_{i}") ++
       tq cs "] ;" ++ supportPath cs ++ tq cs "set_match ( __set_coll . len ( ) ," ++
       tq cs (if rest then "true" else "false") ++ tq cs ", __set_preds , & mut __report , &" ++
-      nodeIdent node ++ tq cs ", ) ; } }"
+      nodeIdent node ++ tq cs ", ) ; }" ++
+      (match (Code.set v preds rest node).hold with | .statement => tq cs "}" | .letRef => [])
 def Codes.toks (value : Toks) : Codes → Toks
   | .nil => []
   | .cons c tl => c.toks value ++ tl.toks value
